@@ -283,3 +283,22 @@ def out_of_range_edge(e, pid):
         return (op == '<' and b['v'] <= 0) or (op == '<=' and b['v'] < 0)
     # anything else the pure range test compares with is an upper bound (a size or a count)
     return op in ('>=', '>')
+
+
+def frozen_static_locals(f):
+    """[(var node, name of what it depends on)] — function-local statics whose initialiser reads a parameter or a non-static local of the
+    function: initialised on the first call only, they keep that call's value for the life of the process
+    (`static const std::array<…> m{epos, 0, 0, eneg};` in rz: every later rz rotates by the first angle)."""
+    if not f.body:
+        return []
+    own = {q['id']: q['name'] for q in f.params if q.get('id')}
+    for v in SX.walk(f.body, into_lambdas=False):
+        if v.get('k') == 'var' and not v.get('static') and v.get('id'):
+            own[v['id']] = v.get('name')
+    out = []
+    for v in SX.walk(f.body, into_lambdas=False):
+        if v.get('k') == 'var' and v.get('static') and SX.is_node(v.get('init')):
+            deps = [own[x['id']] for x in SX.walk(v['init']) if x.get('k') == 'ref' and x.get('id') in own]
+            if deps:
+                out.append((v, deps[0]))
+    return out
